@@ -68,6 +68,16 @@ for _ in range(40):
 for _ in range(20):
     es = [(rng.getrandbits(32), rng.getrandbits(32)) for _ in range(rng.randint(0, 4))]
     add("get_common_xs %s" % L(es), show(get_common_xs([RoutingTableEntry(set(), k, m) for k, m in es])))
+from rig.routing_table.ordered_covering import _get_insertion_index
+for _ in range(60):
+    n = rng.randint(0, 7)
+    # tables in ascending generality (the documented domain) and arbitrary ones
+    es = [(0, (0xFFFFFFFF >> rng.randint(0, 6)) << rng.randint(0, 3) & 0xFFFFFFFF) for _ in range(n)]
+    if rng.random() < 0.7:
+        es.sort(key=lambda km: bin(~km[0] & ~km[1] & 0xFFFFFFFF).count("1"))
+    g = rng.randint(-1, 9)
+    add("get_insertion_index %s %s %d" % (L(es), L(g), n + 1),
+        exc(lambda: _get_insertion_index([RoutingTableEntry(set(), k, m) for k, m in es], g)))
 for mask in [0, 1, 3, 7, 0xffff, 5, 6]:
     n = rng.randint(0, 20)
     add("seqs %s %d" % (L(mask), n), show(list(itertools.islice(seqs(mask), n))))
